@@ -179,27 +179,39 @@ func newDecoratorController(resources *dynamicdiscovery.ResourceMap, dynClient *
 	}()
 
 	for _, parent := range dc.Spec.Resources {
-		informer, err := dynInformers.Resource(parent.APIVersion, parent.Resource)
-		if err != nil {
-			return nil, fmt.Errorf("can't create informer for parent resource: %w", err)
-		}
 		groupVersion, err := schema.ParseGroupVersion(parent.APIVersion)
 		if err != nil {
 			return nil, fmt.Errorf("can't parse parent resource groupVersion: %w", err)
 		}
-		c.parentInformers.Set(groupVersion.WithResource(parent.Resource), informer)
+		parentResource := groupVersion.WithResource(parent.Resource)
+		if c.parentInformers.Get(parentResource) != nil {
+			// The same resource is listed more than once: keep the one informer
+			// we already have, a second one would never be closed.
+			continue
+		}
+		informer, err := dynInformers.Resource(parent.APIVersion, parent.Resource)
+		if err != nil {
+			return nil, fmt.Errorf("can't create informer for parent resource: %w", err)
+		}
+		c.parentInformers.Set(parentResource, informer)
 	}
 
 	for _, child := range dc.Spec.Attachments {
-		informer, err := dynInformers.Resource(child.APIVersion, child.Resource)
-		if err != nil {
-			return nil, fmt.Errorf("can't create informer for child resource: %w", err)
-		}
 		groupVersion, err := schema.ParseGroupVersion(child.APIVersion)
 		if err != nil {
 			return nil, fmt.Errorf("can't parse child resource groupVersion: %w", err)
 		}
-		c.childInformers.Set(groupVersion.WithResource(child.Resource), informer)
+		childResource := groupVersion.WithResource(child.Resource)
+		if c.childInformers.Get(childResource) != nil {
+			// The same resource is listed more than once: keep the one informer
+			// we already have, a second one would never be closed.
+			continue
+		}
+		informer, err := dynInformers.Resource(child.APIVersion, child.Resource)
+		if err != nil {
+			return nil, fmt.Errorf("can't create informer for child resource: %w", err)
+		}
+		c.childInformers.Set(childResource, informer)
 	}
 
 	return c, nil
